@@ -14,7 +14,9 @@ import EaselModel.Dsqdata.SmemLemmas
 import EaselModel.Dsqdata.PackMem
 import EaselModel.Pipeline.Locks
 import EaselModel.Pipeline.Fatal
+import EaselModel.Pipeline.Liveness
 import EaselModel.Dsqdata.ShortRead
+import EaselModel.Dsqdata.CutLemmas
 /-! # C12 — property theorems (statements + glue only; lemmas live in WorkQueue/*.lean, Dsqdata/*.lean)
 
 Work queue (`esl_workqueue.c`): every theorem is about *all* states reachable from `esl_workqueue_Create(size)` by
@@ -776,6 +778,53 @@ example : ∃ s, Pipeline.run (Pipeline.Sys.create 2 3 2)
       = some s ∧ s.owners 0 = [.recycling] ∧ s.owners 1 = [.consumer 8] ∧ s.owners 2 = [.loader] ∧ s.owners 3 = [] := by
   refine ⟨_, rfl, ?_, ?_, ?_, ?_⟩ <;> decide
 
+/-! ### progress: a variant function, and liveness under weak fairness (strengthens `pipe_no_deadlock`) -/
+
+/-- **The variant.** `Pipeline.phi` (the loader's remaining program - 6 per chunk still to load plus its cleanup phase -, per lane the
+    unpacker's remaining work, 2 per chunk not yet returned by `Read`, 1 per chunk in a consumer's hands) never increases, and every
+    step that is not a wait - the stepping thread was not blocked, a `Read` that returns a chunk, a `Recycle` - strictly decreases
+    it. Hence from a state `s` at most `phi s` non-wait steps can ever happen, whatever the schedule. -/
+theorem pipe_variant {U T C : Nat} (hU : 0 < U) {s s' : Pipeline.Sys} (h : Pipeline.Reachable U T C s) (l : Pipeline.Label)
+    (hs : Pipeline.step s l = some s') :
+    Pipeline.phi s' ≤ Pipeline.phi s ∧ (Pipeline.isProgress s l = true → Pipeline.phi s' < Pipeline.phi s) :=
+  Pipeline.step_phi s s' l (Pipeline.reachable_inv hU h) hs
+
+/-- **A wait is a stutter.** A step that is not progress (a blocked thread going to sleep or back to sleep after a spurious wake-up,
+    a `Read` that sleeps or answers EOF) changes nothing that decides whether any thread can make progress. -/
+theorem pipe_wait_is_stutter {U T C : Nat} (hU : 0 < U) {s s' : Pipeline.Sys} (h : Pipeline.Reachable U T C s) (l : Pipeline.Label)
+    (hs : Pipeline.step s l = some s') (hp : Pipeline.isProgress s l = false) (t : Pipeline.Thread) :
+    Pipeline.canProgress s' t = Pipeline.canProgress s t :=
+  Pipeline.quiet_canProgress (Pipeline.step_quiet s s' l (Pipeline.reachable_inv hU h) hs hp) t
+
+/-- **Progress is always possible until `Read` can answer the final EOF**: in every reachable state either all `T` chunks have been
+    returned and `Read` answers `eslEOF` at once, or some thread - the loader, an unpacker, a consumer calling `Read` (it gets a
+    chunk), a consumer recycling - has a step that is not a wait. -/
+theorem pipe_progress_enabled {U T C : Nat} (hU : 0 < U) {s : Pipeline.Sys} (h : Pipeline.Reachable U T C s) :
+    (s.nchunk = s.T ∧ Pipeline.readBlocked s = false) ∨ ∃ t, Pipeline.canProgress s t = true := by
+  by_cases hg : Pipeline.Goal s
+  · exact Or.inl hg
+  · have i := Pipeline.reachable_inv2 hU h
+    exact Or.inr (Pipeline.progress_enabled s i.1 i.2 (by rw [Pipeline.reachable_limit h]; omega) hg)
+
+/-- **Liveness under weak fairness.** Take ANY infinite execution of the pipeline from a reachable state (`Pipeline.Exec`: a state and a
+    label for every step index, each step a transition - any number `U ≥ 1` of unpackers, any number of consumers, spurious wake-ups,
+    any interleaving) that is weakly fair (`Pipeline.WeaklyFair`: a thread - loader, unpacker `u`, "a consumer calls `Read`", "a consumer
+    recycles" - that can make progress from some point on for ever does take a step). Then some state of it has every chunk returned
+    by `esl_dsqdata_Read` (`nchunk = T`; by `pipe_order` these were chunks `0 … T-1`, each once, in order) and `Read` answers
+    `eslEOF` at once (and by `pipe_eof_delivered` to every consumer that asks). No thread waits for ever. -/
+theorem pipe_liveness_weak_fairness {U T C : Nat} (hU : 0 < U) (e : Pipeline.Exec U T C) (hf : Pipeline.WeaklyFair e) :
+    ∃ j, (e.st j).nchunk = T ∧ Pipeline.readBlocked (e.st j) = false ∧ (e.st j).returned = List.range T := by
+  obtain ⟨j, h1, h2⟩ := Pipeline.fair_reaches_eof hU e hf
+  exact ⟨j, h1, h2, by rw [(pipe_order hU (e.reach j)).1, h1]⟩
+
+/-- non-vacuity of the variant: 3 chunks, 2 unpackers, 2 consumers start at `phi = 39`; the run of the example further up (13 steps,
+    all of them progress) has brought it down by 13 -/
+example : Pipeline.phi (Pipeline.Sys.create 2 3 2) = 39 := by decide
+example : ∃ s, Pipeline.run (Pipeline.Sys.create 2 3 2)
+    [.loader, .loader, .loader, .unpacker 0, .loader, .loader, .loader, .unpacker 1, .unpacker 0, .read 7, .unpacker 1, .read 8, .recycle 7 0 0]
+      = some s ∧ Pipeline.phi s = 26 := by
+  refine ⟨_, rfl, ?_⟩; decide
+
 /-! ### a database whose `.dsqs` / `.dsqm` was cut short behind the header: the loader's fatal branch
 
 `Pipeline.FReachable U T C F x`: the pipeline on a database whose index announces `T` chunks while the data of chunk number `F` is
@@ -842,6 +891,53 @@ theorem dsq_loader_outcomes (maxseq : Nat) (maxpacket : Int) (fuel : Nat) (st : 
     Dsqdata.loaderChunksB maxseq maxpacket fuel st =
       if (Dsqdata.loaderRunX maxseq maxpacket fuel st).2 = .eof then some (Dsqdata.loaderRunX maxseq maxpacket fuel st).1 else none :=
   Dsqdata.loaderRunX_B maxseq maxpacket fuel st
+
+/-- **A written database with `.dsqs` or `.dsqm` cut short behind the header, at ANY byte.** Same hypotheses as
+    `dsq_bytes_round_trip`; `out` = the chunks of the intact database. `esl_dsqdata_Open` has read the headers (`o`); of the packet file
+    (resp. the metadata file) only the first `m` bytes behind the header exist. Then the byte-level loader (`loaderRunX`: its main
+    loop with the outcomes kept apart) either does exactly what it does on the intact files - all chunks, then end of data: the cut
+    was behind the last byte - or loads a PREFIX of the intact database's chunks, byte for byte the same chunks, and then stops in
+    its fatal short-read branch (`expected w, got g`, `g < w`). It never delivers a wrong or partial chunk, never faults, and never
+    reports end of data early: with `pipe_cut_never_eof` / `pipe_cut_no_deadlock` (`F` = the length of that prefix) no consumer is
+    handed a damaged record, told EOF, or left waiting. -/
+theorem dsq_cut_data_files (tag alphatype : Nat) (fname fmt : List UInt8) (db : List Dsqdata.SeqRec) (maxseq : Nat) (maxpacket : Int)
+    (hty : alphatype = 1 ∨ alphatype = 2 ∨ alphatype = 3) (hwf : ∀ r ∈ db, r.Wf)
+    (hlen : ∀ r ∈ db, r.dsq.length < 6 * Dsqdata.MAXPACKET) (hms : 1 ≤ maxseq)
+    (hfit : ∀ r ∈ db, ((Dsqdata.pk (alphatype == 3) r.dsq).length : Int) ≤ maxpacket)
+    (h1 : (db.map fun r => (Dsqdata.pk (alphatype == 3) r.dsq).length).sum < 2 ^ 63)
+    (h2 : (db.map fun r => (Dsqdata.encodeMeta (Dsqdata.metaOf r)).length).sum < 2 ^ 63)
+    (expect : Option Nat) (hexp : expect = none ∨ expect = some alphatype) (m : Nat) :
+    ∃ f o out, Dsqdata.writeDb tag alphatype fname fmt db = .ok f ∧ Dsqdata.openDb expect f = .ok o ∧
+      Dsqdata.readDb maxseq maxpacket o = some out ∧ out.flatMap (·.2) = db ∧
+      Dsqdata.loaderRunX maxseq maxpacket (o.ifp.length / 16 + 2) (Dsqdata.BState.init o) = (out.map (·.1), .eof) ∧
+      (Dsqdata.loaderRunX maxseq maxpacket (o.ifp.length / 16 + 2) { Dsqdata.BState.init o with sfp := o.sfp.take m } = (out.map (·.1), .eof) ∨
+        ∃ k w g, (Dsqdata.loaderRunX maxseq maxpacket (o.ifp.length / 16 + 2) { Dsqdata.BState.init o with sfp := o.sfp.take m }).1
+                    = (out.map (·.1)).take k ∧
+          (Dsqdata.loaderRunX maxseq maxpacket (o.ifp.length / 16 + 2) { Dsqdata.BState.init o with sfp := o.sfp.take m }).2
+                    = .fatalPackets w g ∧ g < w) ∧
+      (Dsqdata.loaderRunX maxseq maxpacket (o.ifp.length / 16 + 2) { Dsqdata.BState.init o with mfp := o.mfp.take m } = (out.map (·.1), .eof) ∨
+        ∃ k w g, (Dsqdata.loaderRunX maxseq maxpacket (o.ifp.length / 16 + 2) { Dsqdata.BState.init o with mfp := o.mfp.take m }).1
+                    = (out.map (·.1)).take k ∧
+          (Dsqdata.loaderRunX maxseq maxpacket (o.ifp.length / 16 + 2) { Dsqdata.BState.init o with mfp := o.mfp.take m }).2
+                    = .fatalMeta w g ∧ g < w) := by
+  obtain ⟨f, o, out, a, b, c, d, _⟩ := dsq_bytes_round_trip tag alphatype fname fmt db maxseq maxpacket hty hwf hlen hms hfit h1 h2 expect hexp
+  have hrun := Dsqdata.readDb_runX maxseq maxpacket o out c
+  refine ⟨f, o, out, a, b, c, d, hrun, ?_, ?_⟩
+  · have := Dsqdata.cut_sfp_run maxseq maxpacket (o.ifp.length / 16 + 2) (Dsqdata.BState.init o) m
+    rw [hrun] at this
+    exact this
+  · have := Dsqdata.cut_mfp_run maxseq maxpacket (o.ifp.length / 16 + 2) (Dsqdata.BState.init o) m
+    rw [hrun] at this
+    exact this
+
+/-- non-vacuity: `demoDb` (2 records, one per chunk): `.dsqs` cut 4 bytes behind its header - the first chunk's packets are
+    incomplete - ends in the fatal branch with no chunk delivered; cut behind everything, both chunks and end of data -/
+example : (match Dsqdata.openDb none (match Dsqdata.writeDb 7 2 [] [] demoDb with | .ok f => f | _ => ⟨[], [], [], []⟩) with
+    | .ok o => ((Dsqdata.loaderRunX 1 4 5 { Dsqdata.BState.init o with sfp := o.sfp.take 3 }).2.isFatal,
+                (Dsqdata.loaderRunX 1 4 5 { Dsqdata.BState.init o with sfp := o.sfp.take 3 }).1.length,
+                (Dsqdata.loaderRunX 1 4 5 { Dsqdata.BState.init o with sfp := o.sfp.take 1000 }).2,
+                (Dsqdata.loaderRunX 1 4 5 { Dsqdata.BState.init o with sfp := o.sfp.take 1000 }).1.length)
+    | _ => (false, 0, .fault, 0)) = (true, 0, .eof, 2) := by decide +kernel
 end pipeline
 
 end EaselModel.Props.C12
